@@ -240,6 +240,10 @@ def dynamic_check(pid, tier, mode):
     res = Result(pid, tier)
     vlib.build_harness()
     thorough = tier == "thorough"
+    # (A) design: the buffered protocol (validated updates, lazy replay, selector-guarded re-issue, caches) answers for the logical framework
+    for cfg in ["MCDynamic_CO.cfg", "MCDynamic_ST.cfg"] + (["MCDynamic_CO_L3.cfg"] if thorough else []):
+        res.add_mc(vlib.mc("MCDynamic.tla", cfg=cfg, wd=res.wd, name=cfg[:-4], timeout=3600))
+    res.extra["model_rejects_missing_reissue_after_removal"] = vlib.mc_expect_violation("MCDynamic.tla", "MCDynamic_defect.cfg", res.wd, "MCDynamic_defect")
     runs = []
     hfile, nh = store_histories(res, 3)
     runs.append(("hist3_real", ["--hists", hfile, "--oracle", "real"], nh))
@@ -502,6 +506,7 @@ def c16(tier):
     thorough = tier == "thorough"
     # (ii) design: drain-then-wait terminates for every input/output volume around the pipe capacity and every child behaviour
     res.add_mc(vlib.mc("MCExtSat.tla", cfg="MCExtSat_proc.cfg", wd=res.wd, name="MCExtSat_DrainThenWait", timeout=1200))
+    res.extra["model_rejects_wait_then_drain"] = vlib.mc_expect_violation("MCExtSat.tla", "MCExtSat_defect.cfg", res.wd, "MCExtSat_WaitThenDrain")
     # (iii) replies enumerated by the specification, concretised and fed to the real parser through a process
     rfile, nr = export_replay(res, "MCExtReply.tla", open(os.path.join(vlib.SPEC, "MCExtReply.cfg")).read().replace("MaxLines = 3", "MaxLines = %d" % (4 if thorough else 3)), "MCExtReply")
     out = os.path.join(res.wd, "ext.ndjson")
